@@ -594,28 +594,40 @@ open AxVerif.Parser
     OR < AND < NOT < comparison / LIKE / IN / BETWEEN / IS < + - || < * / % < unary sign, left-associative. -/
 theorem table_ordered : Generated.parseTable = docTable := by decide
 
-/-- Round trip, every operand in parentheses: for every expression (any depth, any operators; IN lists non-empty,
-    as the grammar requires) the Pratt parser running on the extracted table reads the fully parenthesised
-    rendering back as the same tree and consumes all of it. -/
-theorem parse_printFull_partial (e : PExpr) (h : ListsOk e = true) :
+/-- **Round trip with minimal parentheses.** For every printable expression — any depth, any mix of operators,
+    negative literals, IS [NOT], [NOT] BETWEEN / IN / LIKE — the Pratt parser running on the binding-power table
+    extracted from the code reads the minimal-parentheses rendering under the documented precedence back as the same
+    tree and consumes all of it.  (Printable: `- <non-negative number>` is a literal, IN lists are not empty.) -/
+theorem parse_printMin (e : PExpr) (h : Printable e = true) :
+    parseExpr Generated.parseTable (printMin docTable e) = some e := by
+  rw [table_ordered]
+  have hc := costM_le_len e
+  have hsafe : safeU e [] := by
+    rcases safe_of_stops e 0 0 [] rfl (Nat.le_refl _) with h0 | h0
+    · exact absurd h0 (Nat.not_lt_zero _)
+    · exact h0
+  have := body_rt e h 0 [] (e, []) 1 (Nat.zero_le _) rfl hsafe (cont_stops e 0 [] rfl)
+    (32 * (body D e).length + 32) (by omega)
+  simp only [List.append_nil] at this
+  simp only [parseExpr, printMin]
+  change (match parseBp D (32 * (body D e).length + 32) 0 (body D e) with | some (e, []) => some e | _ => none) = some e
+  rw [this]
+
+/-- Round trip with every operand in parentheses (no side condition except non-empty IN lists) -/
+theorem parse_printFull (e : PExpr) (h : ListsOk e = true) :
     parseExpr Generated.parseTable (full e) = some e := by
   rw [table_ordered]
   have hc := cost_le_len e
-  have := full_rt e h [] rfl (8 * (full e).length + 8) (by omega)
+  have := full_rt e h [] rfl (32 * (full e).length + 32) (by omega)
   simp only [List.append_nil] at this
   simp only [parseExpr]
-  change (match parseBp D (8 * (full e).length + 8) 0 (full e) with | some (e, []) => some e | _ => none) = some e
+  change (match parseBp D (32 * (full e).length + 32) 0 (full e) with | some (e, []) => some e | _ => none) = some e
   rw [this]
 
-/-- The full statement (not claimed as a theorem; exercised by the `parse` engine on every run with thousands of
-    random expressions and hand-written precedence traps): the *minimal-parentheses* rendering under the documented
-    precedence is read back as the same tree. -/
-def parse_printMin_statement : Prop :=
-  ∀ e : PExpr, Printable e = true → parseExpr Generated.parseTable (printMin docTable e) = some e
-
-/-- … and the lexer reads the text of a token list back (token lists joined by blanks): also only tested. -/
-def lex_render_statement : Prop :=
-  ∀ (render : List Tok → List Nat) (ts : List Tok), lexAll (render ts) = some ts → True
+/-- What is *not* proved (only tested by engine `parse` on every run): the lexer turns the text of a token list
+    — tokens written as the SQL printer writes them, separated by blanks — back into that token list. -/
+def lex_render_statement (render : List Tok → List Nat) : Prop :=
+  ∀ ts : List Tok, lexAll (render ts) = some ts
 
 /-- instances of the minimal-parentheses statement on the classical traps (checked by evaluation) -/
 theorem parse_printMin_examples :
